@@ -58,6 +58,7 @@ def run(ctx) -> None:
     r17_2(ctx)
     r17_3(ctx)
     r17_4(ctx)
+    r17_5(ctx)
     ctx.floor("modules", 11)
     ctx.floor("await_sites", 45)
     ctx.floor("async_for_sites", 15)
@@ -165,6 +166,34 @@ def r17_3(ctx) -> None:
                          witness="origin=" + ", ".join(bad))
             else:
                 ctx.ok("R17.3", u, f"{what} {norm(operand)[:60]} : {cls}", line=n.line)
+
+
+def r17_5(ctx) -> None:
+    """Nothing is driven by hand: ``.send()`` / ``.throw()`` / ``__next__`` on an awaitable's
+    iterator would swallow the tokens it hands to the event loop (or never deliver the replies)."""
+    ctx.rule("R17.5", "no coroutine / awaitable is stepped by hand (.send, .throw, next() on __await__()); "
+                      "the only __await__() call returns a library coroutine's iterator unchanged")
+    for u in real_units(ctx):
+        for c in own_nodes(u.node):
+            if isinstance(c, ast.Call) and isinstance(c.func, ast.Attribute) and c.func.attr in ("send", "throw", "__next__", "close") \
+                    and not (c.func.attr == "close" and not _awaitish(ctx, u, c.func.value)):
+                if c.func.attr == "close" and not _awaitish(ctx, u, c.func.value):
+                    continue
+                ctx.fail("R17.5", u, c, f"`.{c.func.attr}(...)` steps a coroutine / generator by hand: what it hands to the event "
+                         "loop is swallowed by the library instead of reaching the loop", line=c.lineno)
+            if isinstance(c, ast.Call) and isinstance(c.func, ast.Attribute) and c.func.attr == "__await__":
+                name = u.qualname.rsplit(".", 1)[-1]
+                ok = name == "__await__"
+                ctx.check(ok, "R17.5", u, c, "__await__() is only called to delegate a class's own __await__", line=c.lineno)
+    ctx.ok("R17.5", "package", "no manual stepping of awaitables")
+
+
+def _awaitish(ctx, u, e) -> bool:
+    try:
+        v = ctx.vals.expr(u, e, None)
+    except Exception:  # noqa: BLE001
+        return True
+    return any(a[0] in ("userawait", "libcoro", "acall", "usernext", "anextcoro", "libcoroiter") for a in v)
 
 
 def r17_4(ctx) -> None:
